@@ -377,12 +377,26 @@ func expand(yylex yyLexer, x expr) (int, bool) {
 		return x.n, true
 	} else if v, set := yylex.(*lexer).env.Get(x.s); !set || v.Value == "" {
 		return 0, true
-	} else if n, err := strconv.ParseInt(v.Value, 0, 0); err != nil {
+	} else if n, err := strconv.ParseInt(v.Value, 0, 0); err != nil || !isConst(v.Value) {
 		yylex.Error(fmt.Sprintf("invalid number %q", v.Value))
 		return 0, false
 	} else {
 		return int(n), true
 	}
+}
+
+// isConst reports whether s, which strconv.ParseInt accepts with base 0,
+// is a decimal, octal or hexadecimal constant of C: no binary or "0o"
+// prefix and no underscores.
+func isConst(s string) bool {
+	s = strings.TrimLeft(s, "+-")
+	if len(s) > 1 && s[0] == '0' {
+		switch s[1] {
+		case 'b', 'B', 'o', 'O':
+			return false
+		}
+	}
+	return !strings.Contains(s, "_")
 }
 
 func calculate(yylex yyLexer, l expr, op string, r expr) (x expr, ok bool) {
